@@ -1,6 +1,8 @@
 package harness
 
 import (
+	ae "github.com/godaddy/asherah/go/appencryption"
+
 	"bufio"
 	"bytes"
 	"encoding/json"
@@ -21,18 +23,18 @@ import (
 
 // KConfig is one configuration of the K state space.
 type KConfig struct {
-	Name  string
-	Spec  PolicySpec
-	Alpha KAlphabet
-	Depth int
+	Name   string
+	Spec   PolicySpec
+	Alpha  KAlphabet
+	Depth  int
 	Probes bool // C20: run the repetition probes from every expanded state
 }
 
 // kExpand is the worker's answer for one history: the successors by every enabled operation.
 type kExpand struct {
-	Hist  []string `json:"h"`
-	Succ  []kSucc  `json:"s"`
-	Error string   `json:"e,omitempty"`
+	Hist  []string      `json:"h"`
+	Succ  []kSucc       `json:"s"`
+	Error string        `json:"e,omitempty"`
 	Probe *kProbeResult `json:"p,omitempty"`
 }
 
@@ -452,6 +454,42 @@ func c01Large(r *Report) {
 			r.Transitions += 4
 			r.TracesValidated += 4
 		}
+	}
+	// a factory configured without a policy (the SDK's defaults) round-trips, also across a second default factory
+	{
+		resetGlobals()
+		w := NewWorld()
+		mk := func() *ae.SessionFactory {
+			return ae.NewSessionFactory(&ae.Config{Service: "s", Product: "p"}, w.MS, w.KMS, w.AEAD, ae.WithSecretFactory(w.TF))
+		}
+		bad := func(sig, format string, a ...interface{}) {
+			r.Viols = append(r.Viols, Viol{Property: "C01", Harness: "C01/large", Sig: sig + "@default-policy", Msg: fmt.Sprintf(format, a...), Ops: []string{"default-policy"}})
+		}
+		f1, f2 := mk(), mk()
+		s1, _ := f1.GetSession("A")
+		s2, _ := f2.GetSession("A")
+		pl := []byte("default-policy-payload")
+		if pan := safe(func() {
+			rec, err := s1.Encrypt(ctx, append([]byte(nil), pl...))
+			if err != nil {
+				bad("default-policy-encrypt", "encrypt with the default policy: %v", err)
+				return
+			}
+			for i, s := range []*ae.Session{s1, s2} {
+				if out, err := s.Decrypt(ctx, *cloneDRR(rec)); err != nil || !bytes.Equal(out, pl) {
+					bad("default-policy-decrypt", "decrypt with the default policy (factory %d): %v", i+1, err)
+				}
+			}
+		}); pan != "" {
+			bad("default-policy-panic", "a factory without a policy panicked: %s", pan)
+		}
+		s1.Close()
+		s2.Close()
+		f1.Close()
+		f2.Close()
+		r.Evaluations += 3
+		r.Transitions += 3
+		r.TracesValidated += 3
 	}
 	r.Notes = append(r.Notes, "large payloads: 1 MiB and 5 MiB+1 encrypted and decrypted by the same session, another factory and the reference (default and no-cache policy)")
 }
